@@ -12,6 +12,34 @@ import (
 
 // Layout for tables and internal table boxes.
 
+// columnsWithOrigin tells, for each column of the grid, whether a cell originates in it.
+// The other columns are only there to be spanned: they get no border spacing,
+// neither here nor in the computation of the table width.
+func columnsWithOrigin(table *bo.TableBox, nbColumns int) []bool {
+	out := make([]bool, nbColumns)
+	for _, group := range table.Children {
+		for _, row := range group.Box().Children {
+			for _, cell := range row.Box().Children {
+				if x := cell.Box().GridX; 0 <= x && x < nbColumns {
+					out[x] = true
+				}
+			}
+		}
+	}
+	return out
+}
+
+// spacedColumns returns the number of columns with an originating cell in columns [from, to).
+func spacedColumns(hasOrigin []bool, from, to int) int {
+	n := 0
+	for i := from; i < to && i < len(hasOrigin); i++ {
+		if hasOrigin[i] {
+			n++
+		}
+	}
+	return n
+}
+
 // Layout for a table box.
 func tableLayout(context *layoutContext, table_ bo.TableBoxITF, bottomSpace pr.Float, skipStack tree.ResumeStack,
 	pageIsEmpty bool, absoluteBoxes, fixedBoxes *[]*AbsolutePlaceholder,
@@ -36,11 +64,14 @@ func tableLayout(context *layoutContext, table_ bo.TableBoxITF, bottomSpace pr.F
 	positionX := table.ContentBoxX()
 	rowsLeftX := positionX + borderSpacingX
 	var rowsWidth pr.Float
+	hasOrigin := columnsWithOrigin(table, len(columnWidths))
 	if table.Style.GetDirection() == "ltr" {
 		positionX := table.ContentBoxX()
 		rowsX := positionX + borderSpacingX
-		for _, width := range columnWidths {
-			positionX += borderSpacingX
+		for i, width := range columnWidths {
+			if hasOrigin[i] {
+				positionX += borderSpacingX
+			}
 			table.ColumnPositions = append(table.ColumnPositions, positionX)
 			positionX += width
 		}
@@ -48,8 +79,10 @@ func tableLayout(context *layoutContext, table_ bo.TableBoxITF, bottomSpace pr.F
 	} else {
 		positionX := table.ContentBoxX() + table.Width.V()
 		rowsX := positionX - borderSpacingX
-		for _, width := range columnWidths {
-			positionX -= borderSpacingX
+		for i, width := range columnWidths {
+			if hasOrigin[i] {
+				positionX -= borderSpacingX
+			}
 			positionX -= width
 			table.ColumnPositions = append(table.ColumnPositions, positionX)
 		}
@@ -164,9 +197,9 @@ func tableLayout(context *layoutContext, table_ bo.TableBoxITF, bottomSpace pr.F
 				cell.MarginLeft = pr.Float(0)
 				cell.Width = pr.Float(0)
 				bordersPlusPadding := cell.BorderWidth() // with width==0
-				// TODO: we should remove the number of columns with no
-				// originating cells to cell.colspan, see testLayoutTableAuto49
-				width := borderSpacingX*pr.Float(cell.Colspan-1) - bordersPlusPadding
+				// (columns with no originating cell get no spacing)
+				innerSpacings := spacedColumns(hasOrigin, cell.GridX+1, cell.GridX+cell.Colspan)
+				width := borderSpacingX*pr.Float(innerSpacings) - bordersPlusPadding
 				for _, sw := range spannedWidths {
 					width += sw
 				}
@@ -821,6 +854,8 @@ func fixedTableLayout(box *bo.BoxFields) {
 		borderSpacingX = table.Style.GetBorderSpacing()[0].Value
 	}
 
+	hasOrigin := columnsWithOrigin(table, numColumns)
+
 	// `width` on cells of the first row.
 	i := 0
 	for _, cell_ := range firstRowCells {
@@ -828,7 +863,7 @@ func fixedTableLayout(box *bo.BoxFields) {
 		resolvePercentagesBox(cell_, &table.BoxFields, 0)
 		if cell.Width != pr.AutoF {
 			width := cell.BorderWidth()
-			width -= borderSpacingX * pr.Float(cell.Colspan-1)
+			width -= borderSpacingX * pr.Float(spacedColumns(hasOrigin, i+1, i+cell.Colspan))
 			// In the general case, this width affects several columns (through
 			// colspan) some of which already have a width. Subtract these
 			// known widths and divide among remaining columns.
@@ -854,7 +889,7 @@ func fixedTableLayout(box *bo.BoxFields) {
 
 	// Distribute the remaining space equally on columns that do not have
 	// a width yet.
-	allBorderSpacing := borderSpacingX * pr.Float(numColumns+1)
+	allBorderSpacing := borderSpacingX * pr.Float(spacedColumns(hasOrigin, 0, numColumns)+1)
 	var columnsWithoutWidth []int
 	minTableWidth := allBorderSpacing
 	for i, w := range columnWidths {
